@@ -20,6 +20,7 @@ pub struct C12Result {
 pub const SIG_F6: &str = "remove_expired removes the expired entry without its descendants";
 pub const SIG_F7: &str = "submit_entry inserts a child whose parent left the pool after pre_check";
 pub const SIG_F11: &str = "descendants of a detached tx that cannot be re-added stay pooled";
+pub const SIG_H785: &str = "history seed=20260985782785 index=21: tx 46 leaves the pool in a 6-block reorganisation, its child 49 stays";
 pub const SIG_F12: &str = "remove_by_detached_proposal drops an entry whose re-add fails but re-adds its descendants";
 /// C11's F9 code path reaching C12 without a panic: check_and_record_ancestors evicts the pooled users of a cell the new
 /// transaction consumes when it is over the ancestor limit — also when such a user is a PARENT of the new transaction
